@@ -474,7 +474,10 @@ def stage_roundtrip(ctx: Ctx, progs):
                             continue
                         rec['piece'] = piece.src if piece is not None else None
                         rec['after_cut'] = root.src
-                        g.put_slice(piece, i, i, fl, one=True, **popts)
+                        if isinstance(g.a, ast.arguments) and fl in ('defaults', 'kw_defaults'):
+                            g.put(piece, i, fl, **popts)          # defaults are not a sliceable list of their own (the '_all' field is): a single default is put back as one
+                        else:
+                            g.put_slice(piece, i, i, fl, one=True, **popts)
                     else:
                         try:
                             piece = g.get_slice(i, j, fl, cut=True, **opts)
